@@ -5,6 +5,7 @@
   is scheduled in the timer wheel with its deadline.
 -/
 import OtterVerif.Proofs.CacheAll
+import OtterVerif.Proofs.PolicyFuel
 
 namespace OtterVerif.Props.C05All
 open OtterVerif OtterVerif.Impl.Policy OtterVerif.Proofs.CacheJoint OtterVerif.Proofs.CacheAll
@@ -41,5 +42,38 @@ theorem c13_combined_after_sweep (s : CState) (h : CInv s) (T : Nat) (hle : s.w.
     (hq : q ∈ (csweepWith s (Impl.Wheel.deleteExpired s.w T).2 (Impl.Wheel.deleteExpired s.w T).1).live) :
     ∃ x : Impl.Wheel.Ent, x.id = q.1 ∧ x.d = q.2 ∧ x.d ≤ x.e ∧ T >>> Impl.Wheel.shift 0 ≤ x.e >>> Impl.Wheel.shift 0 :=
   Impl.Wheel.c13_mapped_not_overdue h.whl T hle hT q hq
+
+/-- C04 on the combined state: whenever the policy component is the result of an eviction pass over a reachable state (every
+    insert / replace / remove / read step ends with one), the mapped weight is within the maximum or only weightless entries
+    are mapped -/
+theorem c04_combined_bound (s' : CState) (h : CInv s') (S : List Nat) (q : Policy) (hr : Reach S q) (he : s'.p = evictNodes q)
+    (hS : s'.S = S) :
+    s'.p.weightedSize.toNat ≤ s'.p.maximum.toNat ∨ (∀ x ∈ s'.live, (s'.p.node x.1).weight = 0) := by
+  rw [he]
+  rcases bound_evictNodes (reach_inv hr) (evictNodes_never_runs_out (reach_inv hr)) with hb | hz
+  · left; simpa [BitVec.ult] using hb
+  · right
+    intro x hx
+    have hm : x.1 ∈ s'.live.map (·.1) := List.mem_map.mpr ⟨x, hx, rfl⟩
+    have := (h.pol.alive x.1).mp hm
+    have hreach : Reach S (evictNodes q) := Reach.evict hr
+    rw [he, hS] at this
+    exact hz x.1 ((reach_inv hreach).b x.1 this.1 this.2)
+
+/-- the bound after an insertion (with eviction) and after a removal, on the combined state -/
+theorem c04_bound_after_insert_and_remove (s : CState) (h : CInv s) :
+    (∀ id key wt d, id ∉ s.S → d < Impl.Wheel.two64 →
+      (cinsert s id key wt d).p.weightedSize.toNat ≤ (cinsert s id key wt d).p.maximum.toNat ∨
+      (∀ x ∈ (cinsert s id key wt d).live, ((cinsert s id key wt d).p.node x.1).weight = 0)) ∧
+    (∀ old, old ∈ s.live.map (·.1) →
+      (cremove s old).p.weightedSize.toNat ≤ (cremove s old).p.maximum.toNat ∨
+      (∀ x ∈ (cremove s old).live, ((cremove s old).p.node x.1).weight = 0)) := by
+  constructor
+  · intro id key wt d hs hd
+    exact c04_combined_bound _ (cinsert_inv s h id key wt d hs hd) (id :: s.S) _
+      (Reach.add id (Reach.mk id key wt .alive h.pol.reach hs) hs) rfl rfl
+  · intro old ho
+    exact c04_combined_bound _ (cremove_inv s h old ho) s.S _
+      (Reach.delete old (Reach.retire old h.pol.reach)) rfl rfl
 
 end OtterVerif.Props.C05All
